@@ -353,6 +353,138 @@ example :
     (naiveGroup q (pointsOf ops) [1, 2] [0, 1]).length = 4 := by
   decide
 
+/-- **Queries concurrent with a flush.** `before`: any history; then `dataFamily.Flush` of family
+`fam0` switches its memory database `md0` to immutable (window state: the shard as it will be once
+the file is committed, plus `md0` still in memory, read INSTEAD of the file being written);
+`during`: any writes (to any family, any slot order) that complete while the flush is in
+progress — those to `fam0` go to a new mutable memory database. A query in that window
+(`leafGroupW`: new mutable ∪ immutable ∪ committed files, as `dataFamily.memoryFilter` /
+`fileFilter` read them) answers the reference of ALL points written so far, for the same class of
+queries as `query_eq_naive_partial`. -/
+theorem query_eq_naive_in_flush_window_partial (w : Nat) (hw : 0 < w) (sch : List (Nat × FieldType))
+    (before during : List Op) (fam0 : Nat) (md0 : MemDB)
+    (hg : goodOps { Shard.init w with fieldTypes := sch } (before ++ [.flush fam0] ++ during) = true)
+    (hm0 : ((runOps { Shard.init w with fieldTypes := sch } before).family fam0).mutable_ = some md0)
+    (hdur : ∀ op ∈ during, Op.isWrite op = true)
+    (q : Query) (sc : Scope) (fams group : List Nat)
+    (hfa : (runOps { Shard.init w with fieldTypes := sch } (before ++ [.flush fam0] ++ during)).fieldAgg q.field = q.fieldAgg)
+    (hF : q.funcAgg = q.fieldAgg) (hc : AggType.isComm q.fieldAgg = true) (hspf : 0 < q.spf)
+    (hsc : ScopeOK q sc group) (t : Nat) :
+    arrGet (leafGroupW (runOps { Shard.init w with fieldTypes := sch } (before ++ [.flush fam0] ++ during)) q sc
+        [q.fieldAgg]
+        ⟨fam0, md0, Map.lookup (runOps { Shard.init w with fieldTypes := sch } before).ranges md0.created⟩
+        fams group) q.fieldAgg t =
+      naiveBucket q (pointsOf (before ++ [.flush fam0] ++ during)) group fams t := by
+  -- the three states
+  have hgs := hg
+  rw [goodOps_append, goodOps_append, Bool.and_eq_true, Bool.and_eq_true] at hgs
+  obtain ⟨⟨hg1, hg2⟩, hg3⟩ := hgs
+  have hinv1 : Inv (runOps { Shard.init w with fieldTypes := sch } before) (pointsOf before) := by
+    simpa using inv_runOps before _ [] (inv_init w hw sch) hg1
+  have hinv21 : Inv2 (runOps { Shard.init w with fieldTypes := sch } before) := inv2_runOps before _ (inv2_init w sch)
+  have hinv : Inv (runOps { Shard.init w with fieldTypes := sch } (before ++ [.flush fam0] ++ during))
+      (pointsOf (before ++ [.flush fam0] ++ during)) := by
+    have h := inv_runOps (before ++ [.flush fam0] ++ during) _ [] (inv_init w hw sch) hg
+    simp only [List.nil_append] at h
+    exact h
+  have hinv2 : Inv2 (runOps { Shard.init w with fieldTypes := sch } (before ++ [.flush fam0] ++ during)) :=
+    inv2_runOps _ _ (inv2_init w sch)
+  -- name the states
+  generalize hs1 : runOps { Shard.init w with fieldTypes := sch } before = s1 at *
+  have hsE : runOps { Shard.init w with fieldTypes := sch } (before ++ [.flush fam0] ++ during) =
+      runOps (s1.flush fam0) during := by
+    rw [runOps_append, runOps_append, hs1]; rfl
+  rw [hsE] at hinv hinv2 hfa ⊢
+  have hg3' : goodOps (s1.flush fam0) during = true := by
+    rw [runOps_append, hs1] at hg3
+    exact hg3
+  -- the memory database that is being flushed
+  obtain ⟨lo, hi, hr, hb⟩ := hinv1.pages fam0 md0 hm0
+  have hfm : ∃ blk, flushMemDB s1 md0 = some blk := by
+    simp [flushMemDB, hr]
+  obtain ⟨blk, hblk⟩ := hfm
+  have hfam2 : (s1.flush fam0).family fam0 = ⟨none, (s1.family fam0).files ++ [blk], (s1.family fam0).base⟩ := by
+    rw [flush_some_family_self s1 fam0 md0 hm0, hblk]
+  obtain ⟨hkeep, hknown⟩ := writes_keep_files during (s1.flush fam0) hdur
+  have hfiles : ((runOps (s1.flush fam0) during).family fam0).files = (s1.family fam0).files ++ [blk] := by
+    rw [(hkeep fam0).1, hfam2]
+  -- field aggregates do not change
+  have hfa1 : ∀ fld, (runOps (s1.flush fam0) during).fieldAgg fld = s1.fieldAgg fld := by
+    intro fld
+    have h1 := runOps_fieldAgg (s1.flush fam0) during hg3' fld
+    rw [h1, flush_fieldAgg]
+  have hwin : (runOps (s1.flush fam0) during).window = s1.window := by
+    have : ∀ (ops : List Op) (s : Shard), (runOps s ops).window = s.window := by
+      intro ops
+      induction ops with
+      | nil => intro s; rfl
+      | cons op rest ih =>
+        intro s
+        simp only [runOps, List.foldl_cons] at ih ⊢
+        rw [ih]
+        cases op with
+        | write => rfl
+        | flush fam => exact flush_window s fam
+        | compact fam =>
+          simp only [applyOp, Shard.compact]
+          split
+          · rfl
+          · cases mergeBlocks s.fieldAgg (s.family fam).chron <;> rfl
+        | reopen =>
+          simp only [applyOp, Shard.reopen]
+          have : ∀ (l : List Nat) (s : Shard), (flushAll s l).window = s.window := by
+            intro l
+            induction l with
+            | nil => intro s; rfl
+            | cons x r ih2 => intro s; simp only [flushAll, List.foldl_cons] at ih2 ⊢; rw [ih2, flush_window]
+          exact this _ s
+    rw [this, flush_window]
+  have hcomm : AggComm ((runOps (s1.flush fam0) during).fieldAgg q.field) := by
+    rw [hfa]; exact agg_comm_of_isComm hc
+  have hb' : ∀ ser b, Map.lookup md0.pages (ser, q.field) = some b →
+      BufInv s1.window b ∧ ∀ t, memView ((runOps (s1.flush fam0) during).fieldAgg q.field) b t ≠ none → lo ≤ t ∧ t ≤ hi := by
+    intro ser b hp
+    rw [hfa1]
+    exact hb (ser, q.field) b hp
+  have hk : ∀ k b, Map.lookup md0.pages k = some b → k.1 ∈ (runOps (s1.flush fam0) during).known := by
+    intro k b hp
+    apply hknown
+    rw [flush_known]
+    exact hinv21.known fam0 md0 k b hm0 hp
+  have hcell : ∀ ser slot, blk.cell (ser, q.field) slot =
+      pagesView ((runOps (s1.flush fam0) during).fieldAgg q.field) md0.pages q.field ser slot := by
+    intro ser slot
+    rw [hfa1]
+    exact flushBlock_cell s1 hinv1.cfgFixed md0 lo hi hr hb blk hblk ser q.field slot
+  have := leafGroupW_eq_fsum (w := s1.window) _ _ hinv hinv2 q sc hspf hcomm
+    ⟨fam0, md0, Map.lookup s1.ranges md0.created⟩ lo hi hr hb' hk (s1.family fam0).files blk hfiles hcell fams group hsc t
+  rw [hfa] at this
+  rw [this, naiveBucket_eq_fsum, hF]
+  apply fsum_congr
+  intro ser _
+  apply fsum_congr
+  intro fam _
+  apply fsum_congr
+  intro slot _
+  have hrr := hinv.refines fam ser q.field slot
+  rw [hfa] at hrr
+  rw [hrr]
+
+/-- a non-trivial window: family 0 is flushed while (a) slot 5 of series 1 gets another value,
+(b) a new slot and (c) a point of family 1 are written; the query over both families. -/
+example :
+    let before : List Op := [.write 1 0 1 1 .sum 3 1, .flush 0, .write 2 0 1 1 .sum 5 2, .write 2 0 2 1 .sum 9 4]
+    let during : List Op := [.write 3 0 1 1 .sum 5 8, .write 3 0 1 1 .sum 40 16, .write 4 1 1 1 .sum 2 32]
+    let s0 : Shard := { Shard.init 15 with fieldTypes := [(1, .sum)] }
+    let q : Query := ⟨1, .sum, .sum, 64, 0, 127, 1⟩
+    goodOps s0 (before ++ [.flush 0] ++ during) = true ∧
+    ((runOps s0 before).family 0).mutable_.isSome = true ∧
+    (∀ md, ((runOps s0 before).family 0).mutable_ = some md →
+      bucketsOf q (leafGroupW (runOps s0 (before ++ [.flush 0] ++ during)) q ⟨[1], [1, 2]⟩ [.sum]
+        ⟨0, md, Map.lookup (runOps s0 before).ranges md.created⟩ [0, 1] [1, 2]) .sum =
+        [(3, 1), (5, 10), (9, 4), (40, 16), (66, 32)]) := by
+  decide
+
 /-- **Field functions** on the abstract map: sum/min/max/count/first/last return the field's array
 for the function's agg type unchanged, `rate` divides by the query interval in seconds. -/
 theorem expr_eval_correct (f : FuncType) (sec : Nat) (v : Int) :
